@@ -70,6 +70,8 @@ def main(argv):
     if os.path.exists(_bp):
         # solver-strategy hints only (which pass discharged the obligation last time); never a verdict
         opts["hints"] = {k.split("|", 1)[1]: v["hint"] for k, v in json.load(open(_bp)).get("obligations", {}).items() if v.get("hint")}
+    for _wn in (prop.get("witnesses") or {}):
+        opts.setdefault("hints", {}).setdefault(_wn, "witness")
     results = []
     reg = None
     wall_v = 0.0
@@ -148,7 +150,7 @@ def main(argv):
     # open, the scenario is replayed on the real code and decides (reproduced -> violation with replay)
     for (key, name), g in sorted(byname.items()):
         wmod = prop.get("witnesses", {}).get(name)
-        if wmod and (g["failed"] or g["unknown"]):
+        if wmod and "#" not in key and (g["failed"] or g["unknown"]):      # (not for restricted contract variants)
             try:
                 rp = importlib.import_module(wmod).run()
             except Exception as e:
@@ -184,8 +186,11 @@ def main(argv):
                 continue
             violations.append((br["name"], v.get("what", "bounded"), {"bounded": v}, "bounded"))
 
-    n_ob = len(byname)
-    n_dis = sum(1 for g in byname.values() if not g["failed"] and not g["unknown"])
+    # obligations that a committed known finding says are false on this tree are not part of what this run claims to have
+    # proved: they are listed separately (with the witness), and the count below is over the remaining ones
+    kf_obs = {(key, name) for _kf, key, name in known_hits if (key, name) in byname}
+    n_ob = len(byname) - len(kf_obs)
+    n_dis = sum(1 for kn, g in byname.items() if kn not in kf_obs and not g["failed"] and not g["unknown"])
     inst = sum(g["instances"] for g in byname.values())
     solver_time = sum(g["time"] for g in byname.values())
     by_backend = {}
@@ -260,6 +265,8 @@ def main(argv):
         "bounded_standins": [{k: v for k, v in br.items() if k not in ("violations", "samples")} for br in bounded_results],
         "undecided_functions": [{"function": k, "reason": r[:300]} for k, r in undecided],
         "open_unknown_obligations": [{"function": k, "obligation": n} for k, n, _ in open_unknown],
+        "known_finding_obligations": [{"function": k, "obligation": n, "finding": kf.get("id"), "restriction": kf.get("restriction")}
+                                      for kf, k, n in known_hits if (k, n) in byname],
         "known_findings_hit": sorted(set(kf.get("id") for kf, _, _ in known_hits)),
         "not_covered": prop.get("not_covered", []),
         "samples": samples or [{"note": "no obligations"}],
